@@ -87,6 +87,12 @@ def _qr_first_step(A):
     m, n = A.chunksize
     k, _ = A.numblocks
 
+    if any(c < n for c in A.chunks[0]):
+        raise ValueError(
+            "qr requires every row chunk to have at least as many rows as the array has columns, "
+            f"but found row chunks {A.chunks[0]} for {n} columns. Consider rechunking."
+        )
+
     # Q1 has same shape and chunks as A
     R1_shape = (n * k, n)
     R1_chunks = ((n,) * k, (n,))
